@@ -152,7 +152,7 @@ let rx_replay (cfg : rcfg) (items : string) : string =
                let used = uses_eq cfg !st t in
                if used <> has_byte && !bad = None then
                  bad := Some (Printf.sprintf "EQ-MISMATCH at sample %d (model used=%b, trace has=%b)"
-                                (int_of_n (!st).r_samples + 1) used has_byte);
+                                (int_of_n (!st).r_core.r_samples + 1) used has_byte);
                st := step_item cfg !st (Tick t);
                drain ()
              | _ -> failwith "bad tick token")
@@ -261,7 +261,7 @@ let handle (line : string) : string =
           st := s'; Some (link_str l)
         end) (String.split_on_char ',' script) in
     if out = [] then "-" else String.concat "," out
-  | [ "prefixerr"; w ] -> string_of_int (int_of_n (message_prefix_errors (n_of_int (int_of_string w))))
+  | [ "prefixerr"; w ] -> string_of_int (int_of_n (message_prefix_errors_u32 (n_of_int (int_of_string w))))
   | [ "squelch"; maxerr; script ] ->
     let me = n_of_int (int_of_string maxerr) in
     let st = ref sq_init in
